@@ -15,7 +15,9 @@ _RACE = [Harness(name="own-race", module="pdata/pprofile", pkg="pdata/pprofile/p
 SPEC = Spec(
     pid="C08",
     lean_modules=["OtelVerif.Props.C08"],
-    translators=[go_translator("otlpschema", "OtelVerif/Gen/OtlpSchema.lean")],
+    translators=[go_translator("otlpschema", "OtelVerif/Gen/OtlpSchema.lean"),
+                 # second module (round 2): default clause of every reader's key switch, id sizes + code shape of pdata/internal/data/*id.go
+                 go_translator("otlpschema", "OtelVerif/Gen/OtlpSchemaX.lean", args=["--extra"])],
     harnesses=[
         Harness(name="codec", module="pdata/pprofile", pkg="pdata/pprofile/pprofileotlp",
                 files={"zz_verif_c08_codec_test.go": "c08/codec_test.go", "zz_verif_c08_gen_test.go": "c08/gen_test.go"},
@@ -26,17 +28,35 @@ SPEC = Spec(
          "Lean codec model under the regenerated schema; separate streams: JSON spelling variants (snake_case keys, 64-bit ints as "
          "numbers/strings, enum names/numbers, shuffled/unknown/duplicate members), mutated encodings (truncation, wrong wire types, "
          "overlong varints, huge lengths, groups, merges, deprecated field 1000), random bytes. Corpus cases (reproduced defects) first. "
+         "Always-on blocks: response wrappers, type-directed malformed JSON, id boundary shapes, marshaler-output ownership, API-program-built payloads, "
+         "deep nesting, INTEGER SPELLINGS (intspell, from 9 700 000: `+7`, `007`, `-0`, numbers whose overflow jsoniter's digit loop does not notice, "
+         "underscore / space / hex prefix / exponent / empty / lone sign, at one signed and one unsigned 64-/32-bit site of a conforming document of "
+         "each payload and request root; model predicts error vs value exactly) and LENGTH BOUNDARIES (sizeboundary, from 9 800 000: strings / bytes / "
+         "packed lists / repeated messages of 128 and 16384 (thorough: 127, 128, 16383, 16384, 70000) in a message of every protogen package "
+         "reachable from each of the 12 roots) and TEXT LEAVES (txtleaf, from 9 900 000: ids — mixed / upper case, quoted, zero written out, "
+         "2n+1 / 4n characters, newline / space inside, lone quote — and base64 — CR LF anywhere incl. inside the padding and MIME folding of the "
+         "value's own encoding, url-safe alphabet, missing / misplaced / surplus padding, non-zero trailing bits — at one id / bytes site of a "
+         "conforming document of each payload and request root). "
          "non-trivial = the payload sets at least one field to a non-default value; distinct = distinct op lines (sha1).",
     trusted_base=[
         "Lean 4.33.0 kernel; axioms per theorem listed under axioms_per_theorem (subset of propext, Classical.choice, Quot.sound)",
-        "translator translators/cmd/otlpschema (go/ast): struct tags, one-of wrappers, enum value maps of pdata/internal/data/protogen/**, "
-        "and the case labels of every hand-written jsoniter reader; slot order = marshal order (one-of at its largest member)",
+        "translator translators/cmd/otlpschema (go/ast, go/printer): struct tags, one-of wrappers, enum value maps of pdata/internal/data/protogen/**, "
+        "the case labels / assigned field / helper calls / default clause of every hand-written jsoniter reader; slot order = marshal order (one-of at "
+        "its largest member); --extra (Gen/OtlpSchemaX.lean): id sizes from `const <x>Size`, and SHAPE PINS (exit 2 on any other shape, after renaming "
+        "type / size constant / receiver / file suffix) of the six methods of TraceID/SpanID/ProfileID, of bytesid.go and of every *.pb.go's own "
+        "encodeVarint<X>/sov<X>/soz<X>/skip<X> — the straight-line code the model's Ty.id / varint / sov / skipLoop were written against",
         "the generic codec model (Model/C08.lean) stands for the gogo-GENERATED per-message code and for jsonpb/jsoniter glue; "
         "tied by byte-exact / value-exact differential on every run",
         "float64<->text (encoding/json formatting, strconv.ParseFloat) is a lawful-pair parameter (FloatLaws) of the JSON theorems: the harness "
         "gives the per-case table and checks the law per entry; decimal / hex / base64 are concrete model functions with PROVED laws "
-        "(C08_txt_laws), the same functions the driver runs against the real code",
-        "jsoniter lexer, encoding/json string escaping; UTF-8 validity of strings is assumed (invalid UTF-8 is replaced by jsonpb)",
+        "(C08_txt_laws), the same functions the driver runs against the real code; ids and bytes are modelled as the code reads/writes them "
+        "(idMarshalJSON / idUnmarshalJSON = traceid.go, spanid.go, profileid.go, bytesid.go; b64Read = base64.StdEncoding.DecodeString incl. its "
+        "CR/LF skipping) with C08_hexid_roundtrip / C08_base64_roundtrip for every id size and every byte string — NOTHING about a non-float "
+        "text leaf is assumed; encoding/hex and encoding/base64 themselves are stdlib code represented by hexEnc/hexDec/b64enc/b64dec, tied by "
+        "the txtleaf block, the malformed-JSON block and every value case",
+        "jsoniter lexer, encoding/json string escaping; UTF-8 validity of strings is assumed (invalid UTF-8 is replaced by jsonpb). jsoniter's "
+        "INTEGER token reader (readUint64/readUint32 digit loop incl. its incomplete overflow test, ReadInt64/ReadInt32 sign and range checks) and "
+        "strconv.ParseInt/ParseUint base 10 are now MODEL functions (parseNum / parseInt), tied by the intspell block and the variant streams",
         "harness value (de)serialisation by reflection (toVal) and its canonical form: nil == empty slice, zero id == empty, "
         "-0.0 == +0.0 in plain proto3 double fields (the generated `!= 0` test drops it on both codecs)",
     ],
@@ -50,6 +70,9 @@ SPEC = Spec(
         "the JSON lexer (text -> tree) is outside the model: free-form documents are given to the model only when encoding/json parses them "
         "completely (valid UTF-8, no surrogate escapes); no-panic/no-hang of the Go code is observed (recover + timeout; malformed, "
         "type-directed and 10^5-deep inputs), not proved",
+        "integer spellings: the property speaks of 64-bit integers; for texts that are NOT 64-bit integers the two spellings may differ (a number "
+        "above 2^64 whose wrap-around jsoniter does not notice is accepted as garbage while the string is a range error; `+7` / `007` are accepted "
+        "as strings only): observation, kernel witness C08_json_int64_variants_alltext_fails, replayed by the intspell block",
         "FloatLaws + fparse_lt: strconv.ParseFloat(json.Marshal(f)) = f for finite f, ParseFloat(NaN/Infinity/-Infinity) special values, jsoniter "
         "ReadFloat64 agrees with ParseFloat (validated on every sampled double, not proved)",
     ],
